@@ -341,11 +341,54 @@ partial def render (g : Graph) (limit : Nat) (dotted : Bool) (stack : List Tok) 
         | _ => none
       | _ => none
 
+/-- S for `display` of a cyclic value made of lists, pairs and vectors: datum labels.  One header line `#n=<value>` per
+    labelled node (in the order the labels were handed out), then the value; inside, a labelled node is written `#n#`. -/
+partial def renderCyc (g : Graph) (labels : List Nat) (fuel : Nat) (top : Bool) (v : Nat) : Option String :=
+  if fuel == 0 then none
+  else
+    let inner (j : Nat) := renderCyc g labels (fuel - 1) false j
+    match (if top then none else labels.idxOf? v) with
+    | some id => some s!"#{id}#"
+    | none =>
+      let n := g.node v
+      let seq (xs : List Nat) : Option (List String) := xs.mapM inner
+      match n.kind with
+      | .leaf => some (toString (if n.tag == 1000 then 1 else n.tag))
+      | .list => (seq n.kids).map fun ss => "(" ++ " ".intercalate ss ++ ")"
+      | .vec | .mvec => (seq n.kids).map fun ss => "#(" ++ " ".intercalate ss ++ ")"
+      | .pair =>
+        match n.kids with
+        | [a, b] =>
+          -- emit-pair: follows the cdr while it is a pair (without looking at labels), then ` . tail`
+          let rec go (f : Nat) (cur : Nat) (acc : List String) : Option (List String × Nat) :=
+            match f with
+            | 0 => none
+            | f + 1 =>
+              let m := g.node cur
+              match m.kind, m.kids with
+              | .pair, [x, y] => (inner x).bind fun sx => go f y (acc ++ [sx])
+              | _, _ => some (acc, cur)
+          (inner a).bind fun sa => (go 64 b [sa]).bind fun (items, tail) =>
+            (inner tail).map fun st => "(" ++ " ".intercalate items ++ " . " ++ st ++ ")"
+        | _ => none
+      | _ => none
+
+def expectedCycText (shape : String) : Option String :=
+  let (g, root, _) := buildShape shape 1
+  let printable := g.all fun n => n.kind == .leaf || n.kind == .list || n.kind == .vec || n.kind == .mvec || n.kind == .pair
+  if !printable then none
+  else
+    let labels := (ccLabels scannedCfgD g (200 * (g.size * g.size + 8)) { work := [root], vis := [], found := false } []).reverse
+    let headers := labels.mapM fun l => (renderCyc g labels 200 true l).map fun s => s!"#{labels.idxOf l}=" ++ s ++ "\n"
+    headers.bind fun hs => (renderCyc g labels 200 true root).map fun r => String.join hs ++ r
+
 def expectedText (mode : String) (shape : String) (n : Nat) : Option String :=
-  if !(shape.startsWith "chain:") then none
+  if shape.startsWith "ring:" then (if mode == "display" then expectedCycText shape else none)
+  else if !(shape.startsWith "chain:") then none
   else
     let kind := (shape.drop 6).toString
-    if !(["list", "pair-car", "pair-cdr", "mvec", "ivec", "struct"].contains kind) then none
+    let parts := if kind.startsWith "alt:" then (kind.drop 4).toString.splitOn "+" else [kind]
+    if !(parts.all fun k => ["list", "pair-car", "pair-cdr", "mvec", "ivec", "struct"].contains k) then none
     else
       let (b, top) := buildChain {} kind n 0
       -- the aux leaf prints as 1 (the shapes use the literal 1 next to the chain)
